@@ -16,6 +16,7 @@ RULE = ('case = (backend class, TAG_HASH_FILENAMES, metric string); all strings 
         'semicolon or tilde; distinct = distinct (backend, flag, name)')
 RULE_MORE = (' Also: names around the 255-byte component limit with single-character neighbours, encoder-output look-alikes with every count of leading underscores, shell / home expansion syntax with planted variables; every file-system call made on behalf of a name is watched through audit events, writes are refused by the library now and then.')
 RULE_MORE = RULE_MORE + ' Round 11: configurations with ENABLE_TAGS off.'
+RULE_MORE = RULE_MORE + ' Round 12: exists() before and after every create; what the database module probes with exists() is watched like the audited calls.'
 RULE = RULE + RULE_MORE
 EXHAUSTIVE = {'quick': True, 'thorough': True}
 EXHAUSTIVE_OVER = 'all strings of length <= L over the 8-symbol hostile alphabet (L=5 quick, L=6 thorough)'
